@@ -522,7 +522,7 @@ func (interp *Interpreter) evalPath(path string, id uint64) (res reflect.Value, 
 // The main function of the main package is executed if present.
 func (interp *Interpreter) EvalPathWithContext(ctx context.Context, path string) (res reflect.Value, err error) {
 	interp.mutex.Lock()
-	interp.done = make(chan struct{})
+	interp.ensureDone()
 	interp.cancelChan = !interp.opt.fastChan
 	interp.mutex.Unlock()
 
@@ -587,7 +587,7 @@ func (interp *Interpreter) EvalWithContext(ctx context.Context, src string) (ref
 	var err error
 
 	interp.mutex.Lock()
-	interp.done = make(chan struct{})
+	interp.ensureDone()
 	interp.cancelChan = !interp.opt.fastChan
 	interp.mutex.Unlock()
 
@@ -629,6 +629,17 @@ func (interp *Interpreter) stop() {
 }
 
 func (interp *Interpreter) runid() uint64 { return atomic.LoadUint64(&interp.id) }
+
+// ensureDone makes sure that a cancellation channel exists. It must be called with
+// interp.mutex held. The channel is shared by all evaluations of a run
+// generation, like the run id: goroutines left by earlier evaluations stop
+// executing when a later evaluation is cancelled, so those blocked in a channel
+// operation must be released by the same cancellation.
+func (interp *Interpreter) ensureDone() {
+	if interp.done == nil {
+		interp.done = make(chan struct{})
+	}
+}
 
 // ignoreScannerError returns true if the error from Go scanner can be safely ignored
 // to let the caller grab one more line before retrying to parse its input.
